@@ -368,7 +368,7 @@ def _impl_path(sess):
         for off in range(4, len(cd), 32):
             brs = load(cd, off, path)
             loads.append([off, _word_kind(cells, off), brs])
-        obs["cds"].append({"fun": fi, "len": len(cd), "loads": loads})
+        obs["cds"].append({"fun": fi, "len": len(cd), "loads": loads, "syms": sorted({c[1] for c in cells if c[0] == "s"})})
     return obs
 
 
@@ -448,7 +448,7 @@ def _impl_cheat(sess):
             except Exception as e:  # noqa: BLE001
                 brs = [["EXC", type(e).__name__, str(e)[:100]]]
             loads.append([off, kind, brs])
-        obs["cds"].append({"fun": fi, "len": len(calldata), "loads": loads})
+        obs["cds"].append({"fun": fi, "len": len(calldata), "loads": loads, "syms": sorted({c[1] for c in cells if c[0] == "s"})})
     # the size symbols in creation order (cheatcodes always pass the symbol counter)
     names = []
     for c in obs["cds"]:
@@ -563,6 +563,15 @@ def check_spec(sess, obs):
         for (n, cs, fi), (nm, _) in zip(want, syms):
             expected[nm] = (n, cs, fi)
         fixed = {}
+    # no symbol is shared between two calldata of the path
+    seen = {}
+    for ci, c in enumerate(obs["cds"]):
+        for nm in c.get("syms", []):
+            if nm in seen:
+                out.append(("failing-input", f"the symbol {nm} occurs in two calldata of one path ({sig_string(sess['funs'][seen[nm][1]], seen[nm][1])} #{seen[nm][0]} and "
+                            f"{sig_string(sess['funs'][c['fun']], c['fun'])} #{ci}): their arguments are not independent", {"kind": "duplicate-symbol", "where": "path"}))
+                return out
+            seen[nm] = (ci, c["fun"])
     for j, val, brs in obs.get("isolation", []):
         d = obs["regs"][j]
         want = [[[d[5], v], [["const", v]], 1] for v in d[1]]
